@@ -14,14 +14,14 @@ case "$WHAT" in
   ibcsim)
     cd "$VERIF/ibcsim" || exit 2
     cp /repo/go.sum "$VERIF/ibcsim/go.sum.repo" 2>/dev/null || true
-    go build -o "$VERIF/bin/ibcsim.new" ./cmd/ibcsim || exit 2
-    mv -f "$VERIF/bin/ibcsim.new" "$VERIF/bin/ibcsim"
+    # built in place: when nothing changed since the last build the go tool finds the binary up to
+    # date and skips the (slow) link step; any change in /repo or here rebuilds
+    go build -o "$VERIF/bin/ibcsim" ./cmd/ibcsim || exit 2
     ;;
   wasmsim)
     # separate module: 08-wasm is its own Go module (cgo, libwasmvm); serves C29
     cd "$VERIF/wasmsim" || exit 2
-    go build -o "$VERIF/bin/wasmsim.new" . || exit 2
-    mv -f "$VERIF/bin/wasmsim.new" "$VERIF/bin/wasmsim"
+    go build -o "$VERIF/bin/wasmsim" . || exit 2
     ;;
   *) echo "unknown build target $WHAT" >&2; exit 2;;
 esac
